@@ -808,6 +808,16 @@ pub(crate) fn parse_time(source: &str) -> TemporalResult<TimeRecord> {
                 return Err(TemporalError::range()
                     .with_message("UTC designator is not valid for DateTime parsing."));
             }
+            // Without the time designator, a time string must not also read as a month-day
+            // ("1214") or a year-month ("202112"): such strings are ambiguous and rejected.
+            let has_designator = source.starts_with(['T', 't']);
+            if !has_designator
+                && (IxdtfParser::from_str(source).parse_month_day().is_ok()
+                    || IxdtfParser::from_str(source).parse_year_month().is_ok())
+            {
+                return Err(TemporalError::range()
+                    .with_message("Time string is ambiguous without a time designator."));
+            }
             return time.time.temporal_unwrap();
         }
         Err(e) => TemporalError::range().with_message(format!("{e}")),
